@@ -77,26 +77,28 @@ Qed.
 
 (* ------------------------------------------- follow returning a session *)
 
-Lemma follow_ok fuel : forall s o ob s' o',
+(* the last key followed is the ID of the object reached (cache_ok) *)
+Lemma follow_ok fuel : forall s o ob lk s' o' lk',
   plan s = [] -> cache_ok s -> NoDup (map fst (cache s)) -> next_free s ->
-  hget s o = Some ob -> follow fuel s o = (s', Ok o') ->
+  hget s o = Some ob -> follow fuel s o lk = (s', Ok (o', lk')) ->
   quiet s s' /\
   exists ob', hget s' o' = Some ob' /\ r_ref (o_rec ob') = None /\
-              ((o' = o /\ s' = s) \/ L s' (o_id ob') = Some (o_rec ob')).
+              ((o' = o /\ s' = s /\ lk' = lk) \/
+               (L s' (o_id ob') = Some (o_rec ob') /\ o_id ob' = lk')).
 Proof.
-  induction fuel as [|f IH]; intros s o ob s' o' Hp Hco Hnd Hnf Hg E; cbn [follow] in E; rewrite Hg in E.
-  - destruct (r_ref (o_rec ob)) as [t|] eqn:Er; [discriminate|]. injection E as <- <-.
-    split; [apply quiet_refl; assumption|]. exists ob. auto.
+  induction fuel as [|f IH]; intros s o ob lk s' o' lk' Hp Hco Hnd Hnf Hg E; cbn [follow] in E; rewrite Hg in E.
+  - destruct (r_ref (o_rec ob)) as [t|] eqn:Er; [discriminate|]. injection E as <- <- <-.
+    split; [apply quiet_refl; assumption|]. exists ob. auto 8.
   - destruct (r_ref (o_rec ob)) as [t|] eqn:Er.
-    2:{ injection E as <- <-. split; [apply quiet_refl; assumption|]. exists ob. auto. }
+    2:{ injection E as <- <- <-. split; [apply quiet_refl; assumption|]. exists ob. auto 8. }
     destruct (L s t) as [r'|] eqn:El.
     + destruct (lookup_found s t r' Hp Hco Hnd (next_free_ne s t r' Hnf El) El) as [s1 [o1 [Eg [Q Pobj Pca PLk]]]].
       rewrite Eg in E.
-      destruct (IH s1 o1 (mkObj t r') s' o' (qu_plan _ _ Q) (qu_cok _ _ Q) (qu_ndc _ _ Q)
+      destruct (IH s1 o1 (mkObj t r') t s' o' lk' (qu_plan _ _ Q) (qu_cok _ _ Q) (qu_ndc _ _ Q)
                    (next_free_quiet _ _ Q Hnf) Pobj E) as [Q' [ob' [Hg' [Hr' Hcase]]]].
       split; [eapply quiet_trans; eassumption|]. exists ob'. split; [exact Hg'|]. split; [exact Hr'|].
-      right. destruct Hcase as [[-> ->]|Hc]; [|exact Hc].
-      assert (ob' = mkObj t r') by congruence. subst ob'. exact PLk.
+      right. destruct Hcase as [(-> & -> & ->)|Hc]; [|exact Hc].
+      assert (ob' = mkObj t r') by congruence. subst ob'. split; [exact PLk | reflexivity].
     + unfold L in El. destruct (lookup (cache s) t) as [ox|] eqn:Ec.
       * destruct (Hco _ _ Ec) as [obx [Hgx _]]. rewrite Hgx in El. discriminate.
       * rewrite (cache_get_absent s t Hp Ec El) in E. discriminate.
@@ -192,13 +194,13 @@ Proof.
            destruct (sat_add (c_idexpiry (conf s)) (c_grace (conf s)) <=? since (r_created r) (now s))%Z.
            { destruct (cache_delete s1 k) as [s2 ok].
              destruct ok; injection E as <- <- <-; apply cookies_ok_nil; discriminate. }
-           destruct (follow (S (N.to_nat (supply s1))) s1 o0) as [s2 [o'|e|e]] eqn:Ef;
+           destruct (follow (S (N.to_nat (supply s1))) s1 o0 k) as [s2 [[o' lk']|e|e]] eqn:Ef;
              try (injection E as <- <- <-; apply cookies_ok_nil; discriminate).
-           destruct (follow_ok _ s1 o0 _ s2 o' (qu_plan _ _ Q) (qu_cok _ _ Q) (qu_ndc _ _ Q)
+           destruct (follow_ok _ s1 o0 _ k s2 o' lk' (qu_plan _ _ Q) (qu_cok _ _ Q) (qu_ndc _ _ Q)
                        (next_free_quiet _ _ Q (fresh_next_free s Hf)) Pobj Ef)
              as [Q2 [ob' [Hg2 [Hr2 Hcase]]]].
-           rewrite Hg2 in E. cbn [app] in E. injection E as <- <- <-.
-           destruct Hcase as [[-> ->]|HL2].
+           cbn [app] in E. injection E as <- <- <-.
+           destruct Hcase as [(-> & -> & ->)|[HL2 <-]].
            { assert (ob' = mkObj k r) by congruence. subst ob'. cbn in Hr2. congruence. }
            split; [|split; [intros [Hin|[]]; discriminate|split; [|intros; discriminate]]].
            2:{ intros o Ho. injection Ho as <-. eexists. split; [apply (hget_hupd_same s2 o' ob' _ Hg2)|].
@@ -363,9 +365,9 @@ Proof.
       - destruct (_ <=? _)%Z; [|exact Hc0]. destruct (cache_delete s1 k) as [s2 ok]. exact Hc0. }
     destruct stepv as [[s2 step] cks]. cbn in Hstep. destruct step; [|exact Hstep|exact Hstep].
     destruct (if match r_ref (o_rec ob) with Some _ => true | None => false end
-              then follow (S (N.to_nat (supply s2))) s2 o else (s2, Ok o)) as [s3 fr].
-    destruct fr as [o'| |]; [|exact Hstep|exact Hstep].
-    destruct (r_ref (o_rec ob)); [|exact Hstep]. destruct (hget s3 o'); [|exact Hstep]. cbn. auto with plain.
+              then follow (S (N.to_nat (supply s2))) s2 o k else (s2, Ok (o, k))) as [s3 fr].
+    destruct fr as [[o' lk']| |]; [|exact Hstep|exact Hstep].
+    destruct (r_ref (o_rec ob)); [|exact Hstep]. cbn. auto with plain.
 Qed.
 
 (* ---------- a Start that returns a session sets nothing or ends with a live
@@ -431,10 +433,10 @@ Proof.
     destruct stepv as [[s2 step] cks1]. destruct step as [u| |]; [|discriminate|discriminate].
     specialize (Hstep s2 u cks1 eq_refl).
     destruct (if match r_ref (o_rec ob) with Some _ => true | None => false end
-              then follow (S (N.to_nat (supply s2))) s2 o1 else (s2, Ok o1)) as [s3 fr].
-    destruct fr as [o'| |]; [|discriminate|discriminate].
+              then follow (S (N.to_nat (supply s2))) s2 o1 k else (s2, Ok (o1, k))) as [s3 fr].
+    destruct fr as [[o' lk']| |]; [|discriminate|discriminate].
     intro H. injection H as _ _ <-.
-    destruct (r_ref (o_rec ob)); [|exact Hstep]. destruct (hget s3 o'); [|exact Hstep].
+    destruct (r_ref (o_rec ob)); [|exact Hstep].
     right. eexists _, _. reflexivity.
 Qed.
 
